@@ -136,15 +136,47 @@ def cons_truth(p, op):
         return _const_truth(cv.real, op)
     P = PATH
     if P is not None and P.policy.get("threshold") == "assume" and op in (">", ">=", "<", "<="):
-        c = p.t.get(num.ONE_M)
-        if c is not None and 0 < abs(c) <= TINY_MAX:
-            p0 = p.sub(Poly.const(c))
-            a = abs(c)
-            hi = Cons(p0.sub(Poly.const(a)), ">")       # p0 > |c|   => p > 0
-            lo = Cons(p0.add(Poly.const(a)), "<")       # p0 < -|c|  => p < 0
+        ctx = num.ctx()
+        p0t, margin = {}, F(0)
+        for (k, vs), c in p.t.items():
+            tv = [v for v, e in vs if ctx.kind[v] == "real" and ctx.info[v].get("tiny")]
+            if not tv:
+                p0t[(k, vs)] = c
+            elif k == 0 and len(tv) == len(vs) and all(e > 0 for v, e in vs):
+                m = abs(c)
+                for v, e in vs:
+                    m *= F(ctx.info[v]["value"]) ** int(e)
+                margin += m
+            else:
+                margin = None
+                break
+        if margin is None or margin == 0:
+            c = p.t.get(num.ONE_M)
+            if margin == 0 and c is not None and 0 < abs(c) <= TINY_MAX:
+                p0t = dict(p.t)
+                del p0t[num.ONE_M]
+                margin = abs(c)
+            else:
+                margin = None
+        if margin is not None and margin <= TINY_MAX:
+            p0 = Poly(p0t)
+            if not p0.t:
+                return SymBool(Cons(p, op)) if p.const_value() is None else _const_truth(p.const_value().real, op)
+            cv0 = p0.const_value()
+            if cv0 is not None:
+                if abs(cv0.real) > float(margin):
+                    return _const_truth(cv0.real, op)
+                return SymBool(Cons(p, op))
+            a = margin
+            hi = Cons(p0.sub(Poly.const(a)), ">")       # p0 > margin   => p > 0
+            lo = Cons(p0.add(Poly.const(a)), "<")       # p0 < -margin  => p < 0
             msg = f"threshold-assume: |{_short(p0)}| > {float(a):.3g} (sliver below a drop threshold excluded)"
             if msg not in P.assumptions:
                 P.assumptions.append(msg)
+            if p0.key() in ctx.__dict__.get("nonneg", ()):
+                # p0 is |z|^2 by construction: only the upper alternative exists
+                P.pc.append(hi)
+                return _const_truth(1, op)
             return decide([(hi, _const_truth(1, op)), (lo, _const_truth(-1, op))], "threshold")
     return SymBool(Cons(p, op))
 
@@ -157,14 +189,15 @@ def _short(p):
 def compare(a, b, op):
     # |x| compared with a non-negative constant: use squares, no sign fork
     if a._abs_of is not None and a._p is None:
-        r = b.p.rational_value()
+        r = _known_const(b.p)
         if r is not None:
             if r < 0:
                 return _const_truth(1, op)        # |x| - r > 0 always
             sq = a._abs_of.mul(a._abs_of.conj())
-            return cons_truth(sq.sub(Poly.const(r * r)), op)
+            num.ctx().__dict__.setdefault("nonneg", set()).add(sq.key())
+            return cons_truth(sq.sub(b.p.mul(b.p)), op)
     if b._abs_of is not None and b._p is None:
-        r = a.p.rational_value()
+        r = _known_const(a.p)
         if r is not None:
             flip = {"<": ">", "<=": ">=", ">": "<", ">=": "<=", "==": "==", "!=": "!="}[op]
             return compare(b, a, flip)
@@ -186,6 +219,19 @@ def compare(a, b, op):
     if not d.is_real():
         raise TypeError("ordering comparison of complex symbolic values")
     return cons_truth(d, op)
+
+
+def _known_const(p):
+    """value of a poly that is a rational constant or a tiny literal variable, else None"""
+    r = p.rational_value()
+    if r is not None:
+        return r
+    if len(p.t) == 1:
+        (k, vs), c = next(iter(p.t.items()))
+        ctx = num.ctx()
+        if k == 0 and len(vs) == 1 and vs[0][1] == 1 and ctx.info[vs[0][0]].get("tiny"):
+            return c * F(ctx.info[vs[0][0]]["value"])
+    return None
 
 
 def sym_truth(x):
@@ -345,7 +391,14 @@ def sym_round(x, nd=None):
         return round(float(x.p.rational_value()), nd)
     ctx = num.ctx()
     scale = F(10) ** (nd or 0)
+    # round is a function: the same argument gets the same integer variable; the table also lets
+    # harnesses state lemmas about rounded values (symx.circ.link_rounds)
+    tab = ctx.__dict__.setdefault("_rounds", {})
+    key = (x.p.key(), scale)
+    if key in tab:
+        return Sym(Poly.var(tab[key][1]).scale(1 / scale))
     n = ctx.fresh("round", integer=True)
+    tab[key] = (x.p, n, scale)
     npoly = Poly.var(n)
     d = x.p.scale(scale).sub(npoly)
     ctx.defs.append(Cons(d.add(Poly.const(F(1, 2))), ">="))
